@@ -22,7 +22,7 @@ RULE = ("forecast sets with n in 2..40 forecasts, m in 1..12 members, values on 
         "rejected inputs. Non-trivial: dscore strictly between 0 and 1 / sample "
         "size >= 2; distinct by digest of the inputs.")
 ASSUMPTIONS = [
-    "forecast values are exactly tied or at least 2.3e-5 apart (after any of the "
+    "forecast values are exactly tied or at least 3.8e-6 apart (after any of the "
     "maps applied to them), above the kernel's tie tolerance of 1e-6",
     "PIT strict monotonicity is judged between forecasts of the same ensemble size "
     "whose observation is not tied with a member",
@@ -32,7 +32,7 @@ ASSUMPTIONS = [
 ]
 OBLIGATIONS = {"dscore:m=1": 20, "dscore:m>=2": 50, "dscore:perfect": 20,
                "dscore:inverse": 20, "dscore:heavy-ties": 20,
-               "dscore:identical-ens": 10, "dscore:wide-range": 20, "ad:near-duplicates": 10, "ensrank:ref": 50, "pit:random": 30,
+               "dscore:identical-ens": 10, "dscore:wide-range": 20, "dscore:fine-lattice": 10, "ad:near-duplicates": 10, "ensrank:ref": 50, "pit:random": 30,
                "pit:plain": 30, "pit:sudo": 30, "cvm": 50, "ad": 50, "ad:reject": 30,
                "alpha": 20, "n=1-sample": 5}
 
@@ -86,7 +86,7 @@ def ensrank_ref(sim):
 # ---------------------------------------------------------------- generator ----
 def gen_forecasts(rng, it, tier):
     kinds = ["random", "heavy", "identical", "perfect", "inverse", "m1", "random",
-             "perfect-ens", "inverse-ens", "wide", "perfect", "inverse"]
+             "perfect-ens", "inverse-ens", "wide", "perfect", "inverse", "fine"]
     kind = kinds[it % len(kinds)]
     n = int(rng.integers(2, 41 if tier == "thorough" else 25))
     m = int(rng.integers(1, 13))
@@ -101,7 +101,15 @@ def gen_forecasts(rng, it, tier):
     usewide = kind == "wide" or (kind in ("perfect", "inverse") and (it // len(kinds)) % 2)
     if usewide:
         tags.append("dscore:wide-range")
-    if kind == "wide":
+    if kind == "fine":
+        # distinct in binary64 and 30 x the tie tolerance apart, but equal once rounded
+        # to single precision
+        fine = 1024.0 + np.arange(-6, 7) / 32768.0
+        sim = rng.choice(fine, size=(n, m))
+        obs = rng.choice(fine, size=n)
+        tags.append("dscore:fine-lattice")
+        kind = "random"
+    elif kind == "wide":
         sim = rng.choice(wide, size=(n, m))
         obs = rng.choice(wide, size=n)
         # every set holds both scales
@@ -146,6 +154,8 @@ def gen_forecasts(rng, it, tier):
             "sim": sim.astype(float), "tags": tags}
     if usewide:
         case["maps"] = ["arctan", "cubic", "affine", "affine2"]   # exp would overflow
+    if "dscore:fine-lattice" in tags:
+        case["maps"] = ["affine", "affine2"]      # the others merge neighbours
     return case
 
 
